@@ -402,6 +402,10 @@ func c20ErrClass(err error) string {
 		return "readOnly"
 	case strings.HasPrefix(m, "unsupported assignment target"):
 		return "unsupTarget"
+	case m == "expression recursion level exceeded":
+		return "recursion"
+	case strings.HasPrefix(m, "syntax error in expression"):
+		return "syntaxErr"
 	}
 	return "other:" + strings.ReplaceAll(m, " ", "_")
 }
@@ -725,7 +729,7 @@ var c20JunkWords = []string{"08", "09", "1x", "2#2", "65#1", "1#0", "0x", "0X", 
 	"\t-5\n", "- 5", "1 2", "128#1", "-2#1", "+16#ff", "16#-f", "16#+f", "16#", "127#1", "00#1", "02#1", "2#", "0x-1", "0-1", "00", "007", "0x0x1",
 	"\v7\f", "\r7", "x#1", "1##2", "1#2#3", "36#-z", "4#123", "4#124"}
 
-var c20ExprTexts = []string{"1+2", "y+1", "x", "y", "z", "y++", "(3)", "1 + 2", "2*3", "$y", "-y", "0 ? 1 : 2", "y=4", "1/0", "a b", ")", "x+"}
+var c20ExprTexts = []string{"1+2", "y+1", "x", "y", "z", "y++", "(3)", "1 + 2", "2*3", "-y", "+z", " x ", "0 ? 1 : 2", "y=4", "1/0", "a b", "1 2", ")", "x+", "x+1", "w*=2", "z , 3", "--5", "2**3**2", "x+=x++", "08+1", "1x"}
 
 // wild value of a variable for the model/code correspondence: anything goes.
 func c20WildValue(r *Rand) string {
@@ -862,6 +866,26 @@ func c20HookStreams(c *Ctx, i int) {
 	c.Case(fmt.Sprintf("hook/%s/%s/%d/%d", s, b.name, x, y), true, "hooks")
 }
 
+// c20ModelText reports whether a variable value stays inside the alphabet of the model of
+// cfg.arithmValue (word characters, blanks, operators, parentheses); `$`, quotes, backslashes,
+// brackets, control and non-ASCII bytes are lexed by the real parser in ways the model does not
+// cover, and so are `^^` and a token starting with `#`.
+func c20ModelText(v string) bool {
+	for i := 0; i < len(v); i++ {
+		ch := v[i]
+		switch {
+		case ch >= '0' && ch <= '9', ch >= 'a' && ch <= 'z', ch >= 'A' && ch <= 'Z':
+		case strings.IndexByte("_@# \t\n+-*/%<>=!&|^~?:,()", ch) >= 0:
+		default:
+			return false
+		}
+		if ch == '#' && (i == 0 || strings.IndexByte("_@#", v[i-1]) < 0 && !(v[i-1] >= '0' && v[i-1] <= '9' || v[i-1] >= 'a' && v[i-1] <= 'z' || v[i-1] >= 'A' && v[i-1] <= 'Z')) {
+			return false
+		}
+	}
+	return !strings.Contains(v, "^^")
+}
+
 func c20WildEnv(r *Rand) ([]c20Var, bool) {
 	var vars []c20Var
 	n := r.Intn(5)
@@ -869,7 +893,11 @@ func c20WildEnv(r *Rand) ([]c20Var, bool) {
 	for i := 0; i < n; i++ {
 		j := i + r.Intn(len(perm)-i)
 		perm[i], perm[j] = perm[j], perm[i]
-		vars = append(vars, c20Var{name: perm[i], val: c20WildValue(r), ro: r.Intn(25) == 0})
+		val := c20WildValue(r)
+		if !c20ModelText(val) {
+			val = r.Pick([]string{"1 2", "x+", ")", "-x", " y ", "y +1", "(z)*2", "q=3", "x++"})
+		}
+		vars = append(vars, c20Var{name: perm[i], val: val, ro: r.Intn(25) == 0})
 	}
 	return vars, r.Intn(40) == 0
 }
@@ -1267,14 +1295,13 @@ func (o *c20Oracle) readVar(name string, hops int) *big.Int {
 	return n
 }
 
-// c20ExprTextMode (env C20_EXPR_TEXT_VALUES=1) lifts the generator exclusion "variable values are not
-// expression text" so that a candidate repair of C20-expr-text-value can be compared with bash; it is
-// never set by ./check.
-var c20ExprTextMode = os.Getenv("C20_EXPR_TEXT_VALUES") == "1"
+// c20ExprTextMode: some variables of the domain stream hold printed expressions over earlier
+// variables (C20-expr-text-value is repaired); C20_EXPR_TEXT_VALUES=0 switches it off.
+var c20ExprTextMode = os.Getenv("C20_EXPR_TEXT_VALUES") != "0"
 
-// c20LvalChainMode (env C20_LVALUE_CHAINS=1) lifts the exclusion "targets of op=, ++, -- do not hold a
-// name", to validate a candidate repair of C20-lvalue-no-chase; never set by ./check.
-var c20LvalChainMode = os.Getenv("C20_LVALUE_CHAINS") == "1"
+// c20LvalChainMode: targets of op=, ++, -- may hold names (C20-lvalue-no-chase is repaired);
+// C20_LVALUE_CHAINS=0 switches it off.
+var c20LvalChainMode = os.Getenv("C20_LVALUE_CHAINS") != "0"
 
 func c20Bool(b bool) *big.Int {
 	if b {
@@ -1529,6 +1556,7 @@ type c20ShellCase struct {
 	specToo    bool
 	vars       []c20Var
 	e          *aExpr
+	e2         *aExpr // second argument of `let` (statusKind "let2")
 }
 
 func c20Esc(s string) string {
@@ -1643,6 +1671,9 @@ func c20Compare(c *Ctx, cases []c20ShellCase) {
 		if cs.statusKind != "" && r.in.Panic == "" && !r.in.TimedOut {
 			if ans, ok := c20ParseDump(r.in.Stdout, cs.vars); ok {
 				args := cs.statusKind + " " + c20EnvArgs(cs.vars, false) + " " + cs.e.enc()
+				if cs.e2 != nil {
+					args += " " + cs.e2.enc()
+				}
 				c.Op("status "+args, ans)
 				if cs.specToo {
 					c.Op("specstatus "+args, ans)
@@ -1740,16 +1771,19 @@ func c20(c *Ctx) {
 	r := c.R
 
 	// Generator exclusions of the domain stream and of the bash comparison (each is an open known
-	// finding replayed from corpus/C20-known.txt; the wild model=code stream has no exclusions):
-	//  * variable values / word expansions that are expression text (C20-expr-text-value, C20-let-quoted)
-	//  * targets of op=, ++, -- whose value is a name (C20-lvalue-no-chase)
+	// finding replayed from corpus/C20-known.txt; the wild model=code stream has no exclusions
+	// beyond the alphabet of value texts, see c20ModelText):
+	//  * quoted `let` arguments (C20-let-quoted)
 	//  * invalid number literals such as 08, 2#2, 1x (C20-invalid-literal-no-error)
-	//  * error-raising expressions outside `(( ))` and single-argument `let`
-	//    (C20-arith-error-status, C20-let-continues-after-error, C20-for-error-loops)
-	//  * cyclic or > 98-link name chains (C20-name-cycle)
-	//  * ++/-- next to a non-name (C20-incdec-nonname), ++x++ (C20-preinc-postinc-panic)
+	//  * values that are a signed or blank-padded name (C20-numberlike-name)
+	//  * value texts with tokens after a complete expression (C20-value-trailing-tokens)
+	//  * errors other than division by zero / negative exponent inside $(( )) (C20-value-error-status)
+	//  * cyclic or > 98-link name chains (C20-name-cycle, documented upstream)
+	//  * ++x++ (C20-preinc-postinc-panic)
 	//  * `**` with a computed exponent inside an unevaluated branch (C20-dead-branch-negexp)
-	//  * array-element lvalues `a[1]++` (C28 finding: panic "variable name must not be empty")
+	//  * array-element lvalues `a[1]++` (C28: "unsupported assignment target", bash supports them)
+	// Repaired and no longer excluded: expression-text values, name-valued targets of op=/++/--,
+	// error-raising expressions in $(( )), let, for ((;;)) headers and subscripts.
 	var shellCases []c20ShellCase
 	for _, l := range c.CorpusLines() {
 		kind, rest, _ := strings.Cut(l, " ")
@@ -1835,10 +1869,8 @@ func c20(c *Ctx) {
 			continue
 		}
 		if ctx == "let2" {
-			// two arguments; the second is evaluated in the environment the first leaves
-			if tag == "err" {
-				continue // let continues after an error: C20-let-continues-after-error
-			}
+			// two arguments; the second is evaluated in the environment the first leaves (bash and
+			// the interpreter stop at the first error)
 			var vars2 []c20Var
 			for _, v := range dvars {
 				vars2 = append(vars2, c20Var{name: v.name, val: orc.env[v.name]})
@@ -1852,29 +1884,34 @@ func c20(c *Ctx) {
 			}
 			ok2 := true
 			for w := range w2 {
-				if c20ValidName(w) && !known[w] {
+				if !known[w] {
 					ok2 = false
 				}
 			}
-			_, tag2, orc2 := c20OracleRun(vars2, e2)
+			tag2, dead2 := "ok", false
+			if tag != "err" {
+				var orc2 *c20Oracle
+				_, tag2, orc2 = c20OracleRun(vars2, e2)
+				dead2 = orc2.dead
+			}
 			t1, okA := c20ExprText(de, true)
 			t2, okB := c20ExprText(e2, true)
-			if !ok2 || tag2 != "ok" || orc2.dead || !okA || !okB {
+			if !ok2 || (tag2 != "ok" && tag2 != "err") || dead2 || !okA || !okB {
 				continue
 			}
 			script := c20Assignments(dvars) + "let " + t1 + " " + t2 + "\n" + c20Dump(dvars)
-			shellCases = append(shellCases, c20ShellCase{script: script, ctx: ctx, witness: "sh " + c20Esc(script)})
+			sc := c20ShellCase{script: script, ctx: ctx, witness: "sh " + c20Esc(script), vars: dvars, e: de, e2: e2}
+			if !hasNL {
+				sc.statusKind, sc.specToo = "let2", true
+			}
+			shellCases = append(shellCases, sc)
 			continue
 		}
 		sc := c20ShellCase{ctx: ctx, vars: dvars, e: de}
-		if tag == "err" && ctx != "cmd" && ctx != "let" {
-			if ctx == "exp" && r.Intn(3) == 0 {
-				// C20-arith-error-status: no bash comparison, only the runner model's status rule
-				sc.noBash, sc.statusKind = true, "exp"
-			} else {
-				ctx = "cmd"
-				sc.ctx = ctx
-			}
+		if tag == "err" && (ctx == "idxset" || ctx == "idxget") {
+			// `bash -c` exits at a failing assignment statement: not comparable line by line
+			ctx = "cmd"
+			sc.ctx = ctx
 		}
 		script, ok := c20ShellScript(dvars, de, ctx)
 		if !ok {
